@@ -117,15 +117,20 @@ Section Heuristic.
   Definition duplicate_hw := find_dups [] variant_hw.
   (* variants with duplicates replaced by their target; list(set(..)); sorted by code *)
   Definition unique_hw : list Z :=
-    set_sort (map (fun hw => match assocZ hw duplicate_hw with Some g => g | None => hw end) variant_hw).
-  Definition heur_step (T : table) (hw : Z) : table :=
-    let T1 := if memZ hw invariant_nonzero_hw then tbl_set T hw (hx_tbl_invariant (fv hw)) else T in
-    if memZ hw unique_hw then tbl_set T1 hw (hx_tbl_unique hw)
-    else match assocZ hw duplicate_hw with
+    let dups := duplicate_hw in
+    set_sort (map (fun hw => match assocZ hw dups with Some g => g | None => hw end) variant_hw).
+  (* one iteration of  for hw in header[0]  with the three lists already computed *)
+  Definition heur_step_with (inz uniq : list Z) (dups : list (Z * Z)) (T : table) (hw : Z) : table :=
+    let T1 := if memZ hw inz then tbl_set T hw (hx_tbl_invariant (fv hw)) else T in
+    if memZ hw uniq then tbl_set T1 hw (hx_tbl_unique hw)
+    else match assocZ hw dups with
          | Some g => tbl_set T1 hw (hx_tbl_duplicate g)
          | None => T1
          end.
-  Definition heur_table : table := fold_left heur_step fields (tbl_init fields).
+  Definition heur_step : table -> Z -> table := heur_step_with invariant_nonzero_hw unique_hw duplicate_hw.
+  Definition heur_table : table :=
+    let inz := invariant_nonzero_hw in let uniq := unique_hw in let dups := duplicate_hw in
+    fold_left (heur_step_with inz uniq dups) fields (tbl_init fields).
 End Heuristic.
 
 (* variant_header_list route *)
@@ -141,8 +146,8 @@ Definition dict_table (fields L : list Z) : table :=
 (* ---------------------------------------------------------------- header capture *)
 (* arrays are np.zeros(G); every visited trace t does array[slot t] = header[t][field]; later writes win *)
 Definition capture (ts : list Z) (slot : Z -> Z) (h : Z -> Z -> Z) (f : Z) : Z -> Z :=
-  let r := rev_append ts [] in     (* the visits, latest first *)
-  fun p => match find (fun t => slot t =? p) r with Some t => h t f | None => 0 end.
+  let r := map (fun t => (slot t, h t f)) (rev_append ts []) in     (* (element, value) of every visit, latest first *)
+  fun p => match assocZ p r with Some v => v | None => 0 end.
 
 (* regular 3D, no window: geom = Geometry3d(0, n_il, 0, n_xl) *)
 Definition traces_regular (n_il n_xl bs0 : Z) : list Z :=
